@@ -336,6 +336,9 @@ func (ci *crdIpam) Shutdown() {
 // #lizard forgives
 func (ci *crdIpam) ConfigurePool(floatIPs []*FloatingIPPool) error {
 	defer func() {
+		// this runs after the cache lock taken below has been released
+		ci.cacheLock.RLock()
+		defer ci.cacheLock.RUnlock()
 		glog.Infof("Configure pool done, %d fip pool, %d unallocated, %d allocated", len(ci.FloatingIPs),
 			len(ci.unallocatedFIPs), len(ci.allocatedFIPs))
 	}()
